@@ -57,7 +57,7 @@ static double start_radius(Rng & rng, int idx, const char ** name)
   }
 }
 
-#if PART == 1
+#if PART == 1 || PART == 2
 // ------------------------------------------------------------------ linear least squares  f(x) = A x - b
 template<int M, int N>
 struct LinF
@@ -124,6 +124,8 @@ void lin_finish(P & prob, const MatrixXd & A, const VectorXd & b, double kappa, 
   extra        = "\"A\":" + jmat(A) + ",\"b\":" + jvec(b) + ",\"kappa\":\"" + hexd(kappa) + "\",\"stratum\":\"" + tag + "\"";
 }
 
+#endif
+#if PART == 1
 static void fam_lin_static(FILE * out, Rng & rng, int idx)
 {
   MatrixXd A;
@@ -172,6 +174,8 @@ static void fam_lin_dynamic(FILE * out, Rng & rng, int idx)
   go(out, "lin_dynamic", idx, idx % 2, cfg, p, extra);
 }
 
+#endif
+#if PART == 2
 static void fam_lin_sparse(FILE * out, Rng & rng, int idx)
 {
   const int n = 2 + rng.below(7), m = n + 1 + rng.below(6);
@@ -225,6 +229,8 @@ static void fam_lin_multi(FILE * out, Rng & rng, int idx)
   go(out, "lin_multi", idx, idx % 2, cfg, p, extra);
 }
 
+#endif
+#if PART == 3
 // ------------------------------------------------------------------ degenerate starts
 struct UnusedVarF
 {  // third variable does not enter: zero Jacobian column
@@ -291,22 +297,9 @@ static void fam_degenerate(FILE * out, Rng & rng, int idx)
   }
 }
 
-static int n_families() { return 5; }
-static void run_one(FILE * out, int fam, int idx)
-{
-  Rng rng(seed_from_env() * 1000003ull + uint64_t(PART) * 100003ull + uint64_t(fam) * 1009ull + uint64_t(idx) * 7919ull + 5);
-  switch (fam) {
-  case 0: fam_lin_static(out, rng, idx); break;
-  case 1: fam_lin_dynamic(out, rng, idx); break;
-  case 2: fam_lin_sparse(out, rng, idx); break;
-  case 3: fam_lin_multi(out, rng, idx); break;
-  case 4: fam_degenerate(out, rng, idx); break;
-  default: break;
-  }
-}
-#endif
 
-#if PART == 2
+#endif
+#if PART == 3
 // ------------------------------------------------------------------ Rosenbrock / polynomial systems
 struct RosenF
 {
@@ -362,6 +355,8 @@ static void fam_poly(FILE * out, Rng & rng, int idx)
   }
 }
 
+#endif
+#if PART == 4
 // ------------------------------------------------------------------ exponential curve fit  y = a exp(b t)
 struct ExpFitF
 {
@@ -442,20 +437,9 @@ static void fam_mixed(FILE * out, Rng & rng, int idx)
   go(out, "mixed_so3_vec", idx, idx % 2, cfg, p, std::string("\"stratum\":\"start=") + sname + "\"");
 }
 
-static int n_families() { return 3; }
-static void run_one(FILE * out, int fam, int idx)
-{
-  Rng rng(seed_from_env() * 1000003ull + uint64_t(PART) * 100003ull + uint64_t(fam) * 1009ull + uint64_t(idx) * 7919ull + 5);
-  switch (fam) {
-  case 0: fam_poly(out, rng, idx); break;
-  case 1: fam_expfit(out, rng, idx); break;
-  case 2: fam_mixed(out, rng, idx); break;
-  default: break;
-  }
-}
-#endif
 
-#if PART == 3
+#endif
+#if PART == 5 || PART == 6
 // ------------------------------------------------------------------ point-set alignment  f(g) = [g p_i - q_i]
 template<class G, int Dim>
 struct AlignF
@@ -527,6 +511,8 @@ void fam_align(FILE * out, Rng & rng, int idx, const char * name)
   go(out, name, idx, (idx / 3) % 2, cfg, p, std::string("\"stratum\":\"start=") + sname + ",noise=" + std::to_string(nk) + "\"");
 }
 
+#endif
+#if PART == 7
 // ------------------------------------------------------------------ Bundle: f(b) = (b - b*) - c   (minimiser b* + c, zero residual)
 using Bun = smooth::Bundle<smooth::SO3d, smooth::SE2d, Eigen::Vector2d>;
 struct BundleF
@@ -558,6 +544,8 @@ static void fam_bundle(FILE * out, Rng & rng, int idx)
   go(out, "bundle", idx, idx % 2, cfg, p, std::string("\"stratum\":\"start=") + sname + "\"");
 }
 
+#endif
+#if PART == 8
 // ------------------------------------------------------------------ three rotations, sparse analytic Jacobian (tests/test_nls.cpp)
 struct TriSO3F
 {
@@ -612,18 +600,33 @@ static void fam_triso3(FILE * out, Rng & rng, int idx)
   p.scale_fn       = [](const auto &) { return 12.0; };
   go(out, "tri_so3_sparse", idx, idx % 2, cfg, p, std::string("\"stratum\":\"start=") + sname + "\"");
 }
+#endif
 
-static int n_families() { return 5; }
+static int n_families() { return (PART >= 6) ? 1 : 2; }
 static void run_one(FILE * out, int fam, int idx)
 {
+  g_fam = fam;
   Rng rng(seed_from_env() * 1000003ull + uint64_t(PART) * 100003ull + uint64_t(fam) * 1009ull + uint64_t(idx) * 7919ull + 5);
-  switch (fam) {
-  case 0: fam_align<smooth::SO3d, 3>(out, rng, idx, "align_so3"); break;
-  case 1: fam_align<smooth::SE2d, 2>(out, rng, idx, "align_se2"); break;
-  case 2: fam_align<smooth::SE3d, 3>(out, rng, idx, "align_se3"); break;
-  case 3: fam_bundle(out, rng, idx); break;
-  case 4: fam_triso3(out, rng, idx); break;
-  default: break;
-  }
-}
+#if PART == 1
+  if (fam == 0) fam_lin_static(out, rng, idx);
+  if (fam == 1) fam_lin_dynamic(out, rng, idx);
+#elif PART == 2
+  if (fam == 0) fam_lin_sparse(out, rng, idx);
+  if (fam == 1) fam_lin_multi(out, rng, idx);
+#elif PART == 3
+  if (fam == 0) fam_degenerate(out, rng, idx);
+  if (fam == 1) fam_poly(out, rng, idx);
+#elif PART == 4
+  if (fam == 0) fam_expfit(out, rng, idx);
+  if (fam == 1) fam_mixed(out, rng, idx);
+#elif PART == 5
+  if (fam == 0) fam_align<smooth::SO3d, 3>(out, rng, idx, "align_so3");
+  if (fam == 1) fam_align<smooth::SE2d, 2>(out, rng, idx, "align_se2");
+#elif PART == 6
+  if (fam == 0) fam_align<smooth::SE3d, 3>(out, rng, idx, "align_se3");
+#elif PART == 7
+  if (fam == 0) fam_bundle(out, rng, idx);
+#elif PART == 8
+  if (fam == 0) fam_triso3(out, rng, idx);
 #endif
+}
